@@ -1202,3 +1202,80 @@ Proof.
     unfold pb_loop2 in E1; cbn [fn_body cf_lbuf_paragraphbeg] in E1. rewrite E1.
     split; [|exact E2]. unfold m1. rewrite upd_upd by exact Lr. reflexivity.
 Qed.
+
+Lemma meas_le lines dir r : (meas lines dir r <= length lines)%nat.
+Proof.
+  unfold meas. destruct (Z.ltb_spec r 0); cbn [orb]; [lia|]. destruct (Z.leb_spec (Z.of_nat (length lines)) r); [lia|].
+  destruct (dir =? 1); lia.
+Qed.
+Definition pb_rest : stmt := match fn_body cf_lbuf_paragraphbeg with SSeq _ (SSeq _ r) => r | _ => SSkip end.
+
+Definition pb_fin : stmt := match fn_body cf_lbuf_paragraphbeg with SSeq _ (SSeq _ (SSeq _ r)) => r | _ => SSkip end.
+
+Theorem tr_lbuf_paragraphbeg m lb bln lbs lines br bo r o dir d fuel :
+  lbuf_at m lb bln lbs lines -> lines_small lines -> str_at m G_lit_0a_1 [10%N] -> cell_at m br r -> cell_at m bo o -> br <> bo ->
+  ~ In br (G_lit_0a_1 :: lb :: bln :: lbs) -> ~ In bo (G_lit_0a_1 :: lb :: bln :: lbs) -> i32 r -> dir_ok dir ->
+  (length lines < fuel)%nat ->
+  callf cprog fuel (S (S d)) F_lbuf_paragraphbeg [VPtr lb 0; VInt dir; VPtr br 0; VPtr bo 0] m
+  = Ok (VInt 0, set_pos m br bo (fst (lbuf_paragraphbeg (map chop lines) dir r)) 0).
+Proof.
+  intros R Hsm Hl Hr Ho Hne Nr No Ir Hd Hf. pose proof (cell_lt _ _ _ Hr) as Lr. pose proof (cell_lt _ _ _ Ho) as Lo.
+  assert (Nr' : ~ In br (lb :: bln :: lbs)) by (intro H; apply Nr; right; exact H).
+  assert (Nrl : br <> G_lit_0a_1) by (intro H; apply Nr; left; congruence).
+  set (b := map chop lines). unfold lbuf_paragraphbeg. cbn [fst]. fold b.
+  assert (Hlb : length b = length lines) by (unfold b; apply map_length). rewrite Hlb.
+  enter F_lbuf_paragraphbeg cf_lbuf_paragraphbeg. rewrite exec_seq.
+  (let t := eval cbv [pb_loop1 fn_body cf_lbuf_paragraphbeg] in pb_loop1 in change t with pb_loop1).
+  (let t := eval cbv [pb_rest fn_body cf_lbuf_paragraphbeg] in pb_rest in change t with pb_rest).
+  destruct (pb_loop1_ok fuel d lb bln lbs lines br dir (VPtr bo 0) Hsm Nr' Nrl Hd (length lines) m r (S (length lines)) fuel
+              R Hl Lr Hr Ir (meas_le _ _ _) ltac:(lia) Hf) as [E1 I1].
+  rewrite E1. fold b in I1 |- *. set (r1 := para_skip (S (length lines)) b dir true r) in *.
+  set (m1 := upd m br [VInt r1]).
+  assert (R1 : lbuf_at m1 lb bln lbs lines) by (apply lbuf_at_upd; assumption).
+  assert (Hl1 : str_at m1 G_lit_0a_1 [10%N]) by (unfold str_at, m1; rewrite mem_upd_other; [exact Hl|exact Lr|congruence]).
+  assert (Lr1 : (br < length m1)%nat) by (unfold m1; rewrite upd_length by exact Lr; exact Lr).
+  assert (Hr1 : cell_at m1 br r1) by (apply cell_at_upd_same; exact Lr).
+  unfold pb_rest; cbn [fn_body cf_lbuf_paragraphbeg]. rewrite exec_seq.
+  (let t := eval cbv [pb_loop2 fn_body cf_lbuf_paragraphbeg] in pb_loop2 in change t with pb_loop2).
+  destruct (pb_loop2_ok fuel d lb bln lbs lines br dir (VPtr bo 0) Hsm Nr' Nrl Hd (length lines) m1 r1 (S (length lines)) fuel
+              R1 Hl1 Lr1 Hr1 I1 (meas_le _ _ _) ltac:(lia) Hf) as [E2 I2].
+  rewrite E2. fold b in I2 |- *. set (r2 := para_skip (S (length lines)) b dir false r1) in *.
+  unfold m1. rewrite upd_upd by exact Lr. set (m2 := upd m br [VInt r2]).
+  assert (R2 : lbuf_at m2 lb bln lbs lines) by (apply lbuf_at_upd; assumption).
+  assert (Hr2 : cell_at m2 br r2) by (apply cell_at_upd_same; exact Lr).
+  assert (Ho2 : cell_at m2 bo o) by (apply cell_at_upd_other; [exact Lr|congruence|exact Ho]).
+  assert (Hlen : 0 <= blen b <= 2147483647) by (unfold blen; rewrite Hlb; destruct Hsm; lia).
+  assert (Hcl : forall dd, callf cprog fuel (S dd) F_lbuf_len [VPtr lb 0] m2 = Ok (VInt (blen b), m2))
+    by (intro dd; apply (tr_lbuf_len m2 lb bln lbs lines dd fuel R2 Hsm)).
+  (let t := eval cbv [pb_fin fn_body cf_lbuf_paragraphbeg] in pb_fin in change t with pb_fin).
+  remember pb_fin as pf eqn:Epf.
+  xstep.
+  rewrite (load_cell m2 br r2 Hr2). xstep. rewrite wrap_I32_id by exact I2.
+  rewrite Hcl. xstep. rewrite chk_I32 by lia. xstep.
+  assert (Hfinal : forall v, v = Z.max 0 (Z.min r2 (blen b - 1)) -> i32 v ->
+    match exec (callf cprog fuel (S d)) fuel pf
+      (mkst [VPtr lb 0; VInt dir; VPtr br 0; VPtr bo 0] (upd m2 br [VInt v])) with
+    | ONormal st => Ok (VUndef, memm st) | OReturn v st => Ok (v, memm st) | OErr x => Err x | _ => Err EShape end
+    = Ok (VInt 0, set_pos m br bo (Z.max 0 (Z.min r2 (blen b - 1))) 0)).
+  { intros v -> Iv. subst pf. unfold pb_fin; cbn [fn_body cf_lbuf_paragraphbeg]. xstep. change (wrap I32 0) with 0.
+    assert (Ho3 : cell_at (upd m2 br [VInt (Z.max 0 (Z.min r2 (blen b - 1)))]) bo o)
+      by (apply cell_at_upd_other; [unfold m2; rewrite upd_length by exact Lr; exact Lr|congruence|exact Ho2]).
+    rewrite (store_cell _ bo o _ Ho3). xstep. unfold m2. rewrite upd_upd by exact Lr. reflexivity. }
+  destruct (Z.ltb_spec r2 (blen b - 1)) as [La|La]; xstep.
+  - rewrite (load_cell m2 br r2 Hr2). xstep. rewrite wrap_I32_id by exact I2.
+    destruct (Z.ltb_spec 0 r2) as [Lb|Lb]; xstep.
+    + rewrite (load_cell m2 br r2 Hr2). xstep. rewrite wrap_I32_id by exact I2.
+      rewrite Hcl. xstep. rewrite chk_I32 by lia. xstep.
+      destruct (Z.ltb_spec r2 (blen b - 1)); [|lia]. xstep.
+      rewrite (load_cell m2 br r2 Hr2). xstep. rewrite !(wrap_I32_id r2) by exact I2.
+      rewrite (store_cell m2 br r2 _ Hr2). xstep. apply Hfinal; [lia|exact I2].
+    + change (wrap I32 0) with 0. rewrite (store_cell m2 br r2 _ Hr2). xstep. apply Hfinal; [lia|unfold i32; lia].
+  - rewrite Hcl. xstep. rewrite chk_I32 by lia. xstep.
+    destruct (Z.ltb_spec 0 (blen b - 1)) as [Lb|Lb]; xstep.
+    + rewrite (load_cell m2 br r2 Hr2). xstep. rewrite wrap_I32_id by exact I2.
+      rewrite Hcl. xstep. rewrite chk_I32 by lia. xstep.
+      destruct (Z.ltb_spec r2 (blen b - 1)); [lia|]. xstep.
+      rewrite Hcl. xstep. rewrite chk_I32 by lia. xstep. rewrite wrap_I32_id by lia.
+      rewrite (store_cell m2 br r2 _ Hr2). xstep. apply Hfinal; [lia|unfold i32; lia].
+    + change (wrap I32 0) with 0. rewrite (store_cell m2 br r2 _ Hr2). xstep. apply Hfinal; [lia|unfold i32; lia].
+Qed.
